@@ -45,6 +45,9 @@ ApplyEdit(m, e) ==
     [] e.op = "col_flag"     -> [m EXCEPT !.tables[e.t].cols[e.c] = ToggleFlag(@, e.v)]
     [] e.op = "col_default"  -> [m EXCEPT !.tables[e.t].cols[e.c].default = e.df]
     [] e.op = "col_note"     -> [m EXCEPT !.tables[e.t].cols[e.c].note = e.v]
+    \* a default assigned twice in a row: first a value, then one that COMPARES equal to it in the host language but is
+    \* another value (0, 0.0, false): the second assignment counts
+    [] e.op = "default_retyped" -> [m EXCEPT !.tables[e.t].cols[e.c].default = e.df]
     [] e.op = "enum_name"    -> [m EXCEPT !.enums[e.e].name = e.v]
     [] e.op = "ref_type"     -> [m EXCEPT !.refs[e.r].type = e.v]
     [] e.op = "ref_inline"   -> [m EXCEPT !.refs[e.r].inline = e.b]
@@ -72,7 +75,7 @@ ApplyEdit(m, e) ==
     [] e.op = "skip"         -> m
 
 \* (flag edits are listed several times: the layout of PRIMARY KEY clauses depends on how many pk columns a table has)
-EditOps == <<"table_name", "table_schema", "table_alias", "table_note", "col_name", "col_type", "col_flag", "col_flag", "col_flag", "col_default",
+EditOps == <<"table_name", "table_schema", "table_alias", "table_note", "col_name", "col_type", "col_flag", "col_flag", "col_flag", "col_default", "default_retyped",
              "col_note", "enum_name", "ref_type", "ref_inline", "ref_name", "ref_actions", "add_column", "add_index",
              "remove_index", "remove_index", "dup_index", "add_enum_item", "rename_item_add_old",
              "add_table", "delete_table", "add_ref", "add_ref", "delete_ref", "add_enum", "delete_enum", "add_group", "delete_group", "add_sticky",
@@ -103,6 +106,11 @@ ChooseEdit(sd, i, m) ==
                                       THEN [k |-> "enum", e |-> Num(sd, K(50 + i, 0, 6), 1, Len(m.enums))]
                                       ELSE [k |-> "str", v |-> Pick(sd, K(50 + i, 0, 7), NewTypes)]]
     [] op = "col_flag"     -> [op |-> op, t |-> t, c |-> c, v |-> Pick(sd, K(50 + i, 0, 5), <<"pk", "pk", "pk", "unique", "notnull", "autoinc">>)]
+    [] op = "default_retyped" ->
+         LET zeros == <<[k |-> "int", v |-> "0"], [k |-> "float", v |-> "0.0"], [k |-> "bool", v |-> "false"]>>
+             a == Num(sd, K(50 + i, 0, 5), 1, 3)
+             b == ((a + Num(sd, K(50 + i, 0, 6), 0, 1)) % 3) + 1 IN
+         [op |-> op, t |-> t, c |-> c, first |-> zeros[a], df |-> zeros[b]]
     [] op = "col_default"  -> [op |-> op, t |-> t, c |-> c, df |-> ModelDefault(Pick(sd, K(50 + i, 0, 5), Defaults))]
     [] op = "col_note"     -> [op |-> op, t |-> t, c |-> c, v |-> Pick(sd, K(50 + i, 0, 5), NewTexts)]
     [] op = "enum_name"    -> IF m.enums = <<>> THEN skip ELSE [op |-> op, e |-> Num(sd, K(50 + i, 0, 5), 1, Len(m.enums)), v |-> fresh]
